@@ -715,8 +715,11 @@ def classify(v):
     frame-dependent ones."""
     d = v.get("detail") or {}
     case = v.get("case") or {}
-    if v.get("monitor") == "tbl.format" and (v.get("key") or [None])[:2] == ["export-raised", "StopIteration"]:
-        # the K13 frame vector leaves fewer bases than the uninterrupted frame does; a short CDS then has no complete codon
+    k2 = (v.get("key") or [None])[:2]
+    if v.get("monitor") == "tbl.format" and (k2 == ["export-raised", "StopIteration"] or
+                                             (k2 == ["export-raised", "ValueError"] and "Codon not a multiple of 3" in str(d.get("exc")))):
+        # the K13 frame vector leaves fewer bases than the uninterrupted frame does; a short CDS then has no complete codon (the writer's
+        # first-codon lookup raised StopIteration before F-fix of has_start_codon; its has_valid_stop now reads Codon("") -> ValueError)
         try:
             if any(_gene_model(g, gen)["k13"] for gs, gen in zip(case["genes"], case["genomes"]) for g in gs):
                 return "K13-construct-frames-first-block-shorter-than-offset"
